@@ -319,8 +319,9 @@ def run(ck, prog):
     ck.doc('C01.R5', 'every constructor creates the queue with the configured max_queue_size', 3)
     ck.doc('C01.R4', 'count handed to Consume derives from size() of the same queue / the batch bound', 2)
     from . import c02
-    for rid, txt, m in (('C02.R1', 'pending flush ticket loaded before every queue snapshot', 4), ('C02.R2', 'publication of the notified counter: value, after Export, after exporter flush', 6),
-                        ('C02.R9', 'publication follows the exporter flush', 2), ('C02.R11', 'a pending ticket is published only when the whole snapshot was consumed', 2)):
+    for rid, txt, m in (('C02.R1', 'pending flush ticket loaded before every queue snapshot', 4), ('C02.R2', 'publication of the notified counter: value read before the snapshot, after Export, after exporter flush', 8),
+                        ('C02.R9', 'publication follows the exporter flush', 2), ('C02.R11', 'a pending ticket is published only when the whole snapshot was consumed', 2),
+                        ('C02.R12', 'after observing shutdown the worker returns only behind an emptiness observation of the queue', 2)):
         ck.doc(rid, '(shared rule, see C02) ' + txt, m)
     cg = CallGraph(prog)
     cb = Roles(prog, 'canary::c01::BadBatch', cg=cg)
@@ -340,6 +341,8 @@ def run(ck, prog):
         rule_r5(ck, prog, roles)
         # "nothing is lost between two completed flushes" presupposes that a completed flush means what C02 says
         c02.rule_r1_r2(ck, prog, cg, roles)
+        # ... and that what was accepted before shutdown is drained by the worker before it leaves
+        c02.rule_r12(ck, prog, roles)
     # prerequisites shared with C11: the structural rules of the queue the processors rely on
     from . import c11
     ck.doc('C11.R1', '(prerequisite, see C11) ownership typestate of CircularBuffer::Add / AtomicUniquePtr', 10)
